@@ -24,44 +24,60 @@ pr :: (v: i64) { printf("%ld ", v); }
 other :: #import("other.capy");
 gen :: (comptime n: i64) -> i64 { n * 2 }
 gent :: (comptime T: type, v: T) -> T { v }
-three :: () -> usize { 3 }
+three_usize :: () -> usize { 3 }
+three_u8 :: () -> u8 { 3 }
+three_i64 :: () -> i64 { 3 }
+NS_usize :: struct { n: usize };
+NS_u8 :: struct { n: u8 };
+NS_i64 :: struct { n: i64 };
+GN_usize : usize : 3;
+GN_u8 : u8 : 3;
+GN_i64 : i64 : 3;
+GN2_usize :: GN_usize;
+GN2_u8 :: GN_u8;
+GN2_i64 :: GN_i64;
+GC_usize : usize : comptime { 1 + 2 };
+GC_u8 : u8 : comptime { 1 + 2 };
+GC_i64 : i64 : comptime { 1 + 2 };
 mk_ty :: () -> type { i32 }
-NS :: struct { n: usize };
 TS :: struct { t: type };
-GN :: 3;
-GN2 :: GN;
-GC :: comptime { 1 + 2 };
 GT :: i32;
 GT2 :: GT;
 GTC :: comptime { i32 };
 '''
-AFTER = '''GLATE :: 3;
+AFTER = '''GLATE_usize : usize : 3;
+GLATE_u8 : u8 : 3;
+GLATE_i64 : i64 : 3;
 GTLATE :: i32;
 '''
-OTHER = '''ON :: 3;
-ON2 :: ON;
+OTHER = '''ON_usize : usize : 3;
+ON_u8 : u8 : 3;
+ON_i64 : i64 : 3;
+ON2_usize :: ON_usize;
+ON2_u8 :: ON_u8;
+ON2_i64 :: ON_i64;
 OT :: i32;
 '''
 
 # kind -> (local setup, expression, const?)   const? None = not judged
 INT_KINDS = {
     "literal": ("", "3", True),
-    "local-const": ("n1 :: 3;", "n1", True),
-    "local-const-of-const": ("n1 :: 3; n2 :: n1;", "n2", True),
-    "local-const-comptime": ("nc :: comptime { 1 + 2 };", "nc", True),
-    "global": ("", "GN", True),
-    "global-of-global": ("", "GN2", True),
-    "global-comptime": ("", "GC", True),
-    "global-declared-later": ("", "GLATE", True),
-    "imported-global": ("", "other.ON", True),
-    "imported-global-of-global": ("", "other.ON2", True),
-    "local-mut": ("m1 := 3;", "m1", False),
-    "local-const-of-mut": ("m1 := 3; n3 :: m1;", "n3", False),
-    "local-const-of-call": ("n4 :: three();", "n4", False),
-    "call": ("", "three()", False),
-    "member": ("s := NS.{ n = 3 };", "s.n", False),
+    "local-const": ("n1 : TY : 3;", "n1", True),
+    "local-const-of-const": ("n1 : TY : 3; n2 :: n1;", "n2", True),
+    "local-const-comptime": ("nc : TY : comptime { 1 + 2 };", "nc", True),
+    "global": ("", "GN_TY", True),
+    "global-of-global": ("", "GN2_TY", True),
+    "global-comptime": ("", "GC_TY", True),
+    "global-declared-later": ("", "GLATE_TY", True),
+    "imported-global": ("", "other.ON_TY", True),
+    "imported-global-of-global": ("", "other.ON2_TY", True),
+    "local-mut": ("m1 : TY = 3;", "m1", False),
+    "local-const-of-mut": ("m1 : TY = 3; n3 :: m1;", "n3", False),
+    "local-const-of-call": ("n4 :: three_TY();", "n4", False),
+    "call": ("", "three_TY()", False),
+    "member": ("s := NS_TY.{ n = 3 };", "s.n", False),
     "runtime-param": (None, "k", False),
-    "arith-runtime": ("m1 := 2;", "m1 + 1", False),
+    "arith-runtime": ("m1 : TY = 2;", "m1 + 1", False),
     "literal-arith": ("", "1 + 2", None),
     "paren-literal": ("", "(3)", None),
     "bare-comptime": ("", "comptime { 3 }", None),
@@ -88,12 +104,15 @@ TYPE_KINDS = {
 def int_cases():
     cases = []
     uid = 0
-    for kind, (setup, expr, const) in INT_KINDS.items():
+    for kind, (setup0, expr0, const) in INT_KINDS.items():
         for pos in ("array-length", "discriminant", "comptime-arg"):
             uid += 1
             if const is None:
                 continue
             decls = ""
+            ty = {"array-length": "usize", "discriminant": "u8", "comptime-arg": "i64"}[pos]
+            setup = setup0.replace("TY", ty) if setup0 is not None else None
+            expr = expr0.replace("TY", ty)
             if pos == "array-length":
                 use = f"arr : [{expr}]i32; arr[2] = 7; pr(i64.(arr.len)); pr(i64.(arr[2]));"
                 exp = "3 7 "
@@ -104,7 +123,7 @@ def int_cases():
                 use = f"pr(gen({expr}));"
                 exp = "6 "
             if setup is None:
-                decls = f"h{uid} :: (k: usize) {{\n{use}\n}}"
+                decls = f"h{uid} :: (k: {ty}) {{\n{use}\n}}"
                 body = f"h{uid}(3);"
             else:
                 body = (setup + "\n" if setup else "") + use
